@@ -19,7 +19,7 @@ theorem iter_init (a : Arr) : Arr.Sim a {} { done := [], todo := a.abs, removed 
 /-- **every iterator program refines the ideal cursor**: same reports, same final content and
 cursor position; blocked `iter_add` calls (refused growth) leave array and cursor untouched -/
 theorem program_refines (ops : List IterOp) (a : Arr) (it : ArrIter) (c : Cursor) (m : Mem) (hinv : a.Inv)
-    (hlive : 0 < m.live) (hs : Arr.Sim a it c) :
+    (hs : Arr.Sim a it c) :
     (a.iterRun it ops m).1 = (c.run ops ((a.iterRun it ops m).1.map Out.blocked)).1 ∧
     Arr.Sim (a.iterRun it ops m).2.1 (a.iterRun it ops m).2.2.1 (c.run ops ((a.iterRun it ops m).1.map Out.blocked)).2 ∧
     (a.iterRun it ops m).2.1.Inv ∧
@@ -27,7 +27,7 @@ theorem program_refines (ops : List IterOp) (a : Arr) (it : ArrIter) (c : Cursor
   induction ops generalizing a it c m with
   | nil => exact ⟨rfl, hs, hinv, rfl, rfl⟩
   | cons op ops ih =>
-    obtain ⟨s1, s2, s3, s4, s5, s6, _⟩ := Arr.iterStep_sim a it c op m hinv hlive hs
+    obtain ⟨s1, s2, s3, s4, s5, s6, _⟩ := Arr.iterStep_sim a it c op m hinv hs
     obtain ⟨i1, i2, i3, i5, i6⟩ := ih (a.iterStep it op m).2.1 (a.iterStep it op m).2.2.1 _ (a.iterStep it op m).2.2.2
       s4 (by omega) s2
     simp only [Arr.iterRun, Cursor.run, List.map_cons, List.headD_cons, List.tail_cons]
@@ -52,12 +52,12 @@ theorem remove_sim (a : Arr) (it : ArrIter) (c : Cursor) (m : Mem) (hinv : a.Inv
 
 /-- add: inserts directly after the element yielded last and steps over it; blocked → array and
 cursor unchanged (A5) -/
-theorem add_sim (a : Arr) (it : ArrIter) (c : Cursor) (x : Nat) (m : Mem) (hinv : a.Inv) (hlive : 0 < m.live)
+theorem add_sim (a : Arr) (it : ArrIter) (c : Cursor) (x : Nat) (m : Mem) (hinv : a.Inv)
     (hs : Arr.Sim a it c) :
     ((a.iterAdd it x m).1 = .ok ∧ Arr.Sim (a.iterAdd it x m).2.1 (a.iterAdd it x m).2.2.1 (c.add x).2) ∨
     (((a.iterAdd it x m).1 = .errAlloc ∨ (a.iterAdd it x m).1 = .errMaxCapacity) ∧
       (a.iterAdd it x m).2.1 = a ∧ (a.iterAdd it x m).2.2.1 = it) := by
-  rcases (Arr.iterAdd_sim a it c x m hinv hlive hs).1 with ⟨ok, hsim, _⟩ | ⟨hb, h1, h2⟩
+  rcases (Arr.iterAdd_sim a it c x m hinv hs).1 with ⟨ok, hsim, _⟩ | ⟨hb, h1, h2⟩
   · exact Or.inl ⟨ok, hsim⟩
   · refine Or.inr ⟨?_, h1, h2⟩
     rcases hb.1 with ⟨h, _⟩ | ⟨h, _⟩
@@ -108,12 +108,12 @@ theorem zip_replace_sim (a1 a2 : Arr) (it : ArrIter) (z : ZipCursor) (x y : Nat)
 /-- zip add: a pair is inserted after the pair yielded last; when either array cannot make room,
 `CC_ERR_ALLOC`, both contents and the cursor unchanged (A8) -/
 theorem zip_add_sim (a1 a2 : Arr) (it : ArrIter) (z : ZipCursor) (x y : Nat) (m : Mem) (h1 : a1.Inv) (h2 : a2.Inv)
-    (hlive : 0 < m.live) (hs : Arr.ZSim a1 a2 it z) :
+    (hs : Arr.ZSim a1 a2 it z) :
     ((Arr.zipAdd a1 a2 it x y m).1 = .ok ∧
       Arr.ZSim (Arr.zipAdd a1 a2 it x y m).2.1 (Arr.zipAdd a1 a2 it x y m).2.2.1 (Arr.zipAdd a1 a2 it x y m).2.2.2.1 (z.add x y).2) ∨
     ((Arr.zipAdd a1 a2 it x y m).1 = .errAlloc ∧ (Arr.zipAdd a1 a2 it x y m).2.1.abs = a1.abs ∧
       (Arr.zipAdd a1 a2 it x y m).2.2.1 = a2 ∧ (Arr.zipAdd a1 a2 it x y m).2.2.2.1 = it) := by
-  rcases (Arr.zipAdd_sim a1 a2 it z x y m h1 h2 hlive hs).1 with ⟨ok, hsim, _⟩ | ⟨e, b1, _, _, _, _, _, b2, b3, _⟩
+  rcases (Arr.zipAdd_sim a1 a2 it z x y m h1 h2 hs).1 with ⟨ok, hsim, _⟩ | ⟨e, b1, _, _, _, _, _, b2, b3, _⟩
   · exact Or.inl ⟨ok, hsim⟩
   · exact Or.inr ⟨e, b1, b2, b3⟩
 
@@ -136,10 +136,10 @@ theorem spec_traversal (done xs : List Nat) :
 
 /-- in the concrete model: `size + 1` calls of `iter_next` on a fresh iterator over any array yield
 exactly its content in index order, then `CC_ITER_END` -/
-theorem traversal_complete (a : Arr) (m : Mem) (hinv : a.Inv) (hlive : 0 < m.live) :
+theorem traversal_complete (a : Arr) (m : Mem) (hinv : a.Inv) :
     (a.iterRun {} (List.replicate (a.size + 1) .next) m).1 =
       a.abs.map (fun x => ({ st := some .ok, val := some x } : Out)) ++ [{ st := some .iterEnd }] := by
-  have h := (program_refines (List.replicate (a.size + 1) .next) a {} _ m hinv hlive (iter_init a)).1
+  have h := (program_refines (List.replicate (a.size + 1) .next) a {} _ m hinv (iter_init a)).1
   have hb : ∀ (c : Cursor) (n : Nat) (bl : List (Option Stat)),
       (c.run (List.replicate n .next) bl).1 = (c.run (List.replicate n .next) []).1 := by
     intro c n
